@@ -308,6 +308,16 @@ def _eval_int(t, env):
         return q if t[1] == "/" else a - q * b
     if k == "cast":
         return _eval_int(t[2], env)
+    if k == "cond":
+        cv = _eval_int(t[1], env)
+        if cv is None:
+            return None
+        return _eval_int(t[2] if cv else t[3], env)
+    if k == "op" and t[1] in ("<", "<=", ">", ">=", "==", "!="):
+        a, b = _eval_int(t[2], env), _eval_int(t[3], env)
+        if a is None or b is None:
+            return None
+        return int({"<": a < b, "<=": a <= b, ">": a > b, ">=": a >= b, "==": a == b, "!=": a != b}[t[1]])
     items = sym.poly_items(t)
     if items is None:
         return None
@@ -338,6 +348,12 @@ def quasi_affine(t, n):
         return Fraction(0), set(), abs(c)
     if k == "cast":
         return quasi_affine(t[2], n)
+    if k == "cond" and t[1][0] == "op" and t[1][1] in ("<", "<=", ">", ">=", "==", "!="):
+        # c ? x : y with c a comparison of such terms: either branch, the residues the condition looks at join the period
+        parts = [quasi_affine(x, n) for x in (t[1][2], t[1][3], t[2], t[3])]
+        if any(q is None for q in parts) or parts[2][0] != parts[3][0]:
+            return None
+        return parts[2][0], parts[0][1] | parts[1][1] | parts[2][1] | parts[3][1], max(q[2] for q in parts) + 1
     if k == "op" and t[1] in ("%", "/", ">>", "<<", "&"):
         q = quasi_affine(t[2], n)
         cb = sym.const_value(t[3])
@@ -449,18 +465,19 @@ def cover_1d(terms, n, nmin=1):
         L = L * s // gcd(L, s)
         for bound in (lp["hi"], lp["lo"]):
             qa = quasi_affine(bound, n)
-            if qa is None or qa[0] not in (0, 1):
-                return "unknown", "bound %s is not n (rounded down to a multiple of a constant) plus a constant" % sym.show(bound)
-            for m in qa[1]:
+            if qa is None or qa[0] < 0 or qa[0] > 1:
+                return "unknown", "bound %s is not n (divided or rounded down by a constant) plus a constant" % sym.show(bound)
+            for m in list(qa[1]) + [qa[0].denominator]:
                 L = L * m // gcd(L, m)
             D = max(D, qa[2])
         lin = sym.linear_in(g, lp["var"])
-        qr = quasi_affine(lin[1], n) if lin is not None and lin[0] in (I(1), I(-1)) else None
+        cg = sym.const_value(lin[0]) if lin is not None else None
+        qr = quasi_affine(lin[1], n) if cg not in (None, 0) and abs(cg) <= 16 else None
         if qr is None or qr[0] not in (0, 1, -1):
-            return "unknown", "index %s is not (+/-) the loop variable plus a constant (possibly n)" % sym.show(g)
-        for m in qr[1]:
+            return "unknown", "index %s is not a constant multiple of the loop variable plus a constant (possibly n)" % sym.show(g)
+        for m in list(qr[1]) + [abs(cg)]:
             L = L * m // gcd(L, m)
-        D = max(D, qr[2])
+        D = max(D, qr[2] + abs(cg))
     for nv in range(nmin, nmin + D + 2 * L + 2):
         env = {n: nv}
         seen = {}
